@@ -22,6 +22,11 @@ pub struct RunCfg {
     pub noop: bool,
     /// abort a handle before the first poll (hosts that can)
     pub abort_before_start: bool,
+    /// the holder extends the command from outside (`cmd.and(other)`), little programs
+    /// taken from this pool
+    pub extend_pool: Vec<Cmd>,
+    /// favour stream items (many items on the same stream)
+    pub stream_bias: bool,
     /// at the end resolve-or-drop everything and require `done` (C07 end-of-history rule)
     pub final_cleanup: bool,
 }
@@ -36,6 +41,8 @@ impl RunCfg {
             abort: true,
             noop: true,
             abort_before_start: true,
+            extend_pool: vec![],
+            stream_bias: false,
             final_cleanup: true,
         }
     }
@@ -62,6 +69,7 @@ pub struct CaseStats {
     pub drops: usize,
     pub aborts: usize,
     pub noops: usize,
+    pub extends: usize,
     pub stream_items: usize,
     pub out_of_order: usize,
     pub done_checked: usize,
@@ -220,6 +228,7 @@ fn choose_action(
     cfg: &RunCfg,
     next_val: &mut u64,
     aborted: &mut Vec<u32>,
+    extended: &mut usize,
 ) -> Option<Action> {
     let outstanding = model.outstanding();
     let mut cands: Vec<(u32, Action)> = vec![];
@@ -234,7 +243,8 @@ fn choose_action(
                 }
             }
             KIND_MANY => {
-                cands.push((if o.receiver_alive { 8 } else { 2 }, Action::Resolve { site, arg, val: 0 }));
+                let w = if o.receiver_alive { if cfg.stream_bias { 60 } else { 8 } } else { 2 };
+                cands.push((w, Action::Resolve { site, arg, val: 0 }));
             }
             _ => {
                 if cfg.resolve_never {
@@ -245,6 +255,7 @@ fn choose_action(
         if cfg.drop {
             let w = match o.kind {
                 KIND_ONCE if !o.resolved_once => 3,
+                KIND_MANY if cfg.stream_bias => 1,
                 KIND_MANY => 3,
                 _ => 2,
             };
@@ -256,6 +267,9 @@ fn choose_action(
             let w = if aborted.contains(&h) { 1 } else { 3 };
             cands.push((w, Action::Abort { handle: h }));
         }
+    }
+    if !cfg.extend_pool.is_empty() && *extended < cfg.extend_pool.len() {
+        cands.push((2, Action::Extend(Box::new(cfg.extend_pool[*extended].clone()))));
     }
     if cands.is_empty() {
         // nothing left to act on: one last quiescence probe, then stop
@@ -276,6 +290,7 @@ fn choose_action(
             *val = *next_val;
         }
         Action::Abort { handle } => aborted.push(*handle),
+        Action::Extend(_) => *extended += 1,
         _ => {}
     }
     Some(a)
@@ -326,6 +341,7 @@ pub fn run_case(
         reresolve: cfg.reresolve && all(|c| c.reresolve),
         resolve_never: cfg.resolve_never,
         abort_before_start: cfg.abort_before_start && all(|c| c.abort_before_start),
+        extend_pool: if all(|c| c.extend) { cfg.extend_pool.clone() } else { vec![] },
         ..cfg.clone()
     };
     let never_twice = all(|c| c.resolve_never_twice);
@@ -385,6 +401,7 @@ pub fn run_case(
     // ---- steps -----------------------------------------------------------
     let mut next_val: u64 = 1000;
     let mut aborted: Vec<u32> = pre_abort.into_iter().collect();
+    let mut extended = 0usize;
     let mut never_resolved: Vec<(u32, u64)> = vec![];
     let mut last_issue_order: Vec<(u32, u64)> = vec![];
     let mut step = 0usize;
@@ -428,7 +445,7 @@ pub fn run_case(
                 } else {
                     let mut a = None;
                     for _ in 0..8 {
-                        let c = choose_action(&models[0], rng, &eff_cfg, &mut next_val, &mut aborted);
+                        let c = choose_action(&models[0], rng, &eff_cfg, &mut next_val, &mut aborted, &mut extended);
                         // a notification id can be answered at most once over the bridge
                         if let Some(Action::Resolve { site, arg, .. }) = &c {
                             if !never_twice && never_resolved.contains(&(*site, *arg)) {
@@ -470,6 +487,7 @@ pub fn run_case(
             Action::DropReq { .. } => stats.drops += 1,
             Action::Abort { .. } => stats.aborts += 1,
             Action::Noop => stats.noops += 1,
+            Action::Extend(_) => stats.extends += 1,
         }
         let preds: Vec<Pred> = models.iter_mut().map(|m| m.act(&action)).collect();
         let pred = &preds[0];
